@@ -386,6 +386,8 @@ def r3_text(ck, F, tag, enc):
                     val, vty = const_name(r[3][0])
                     if vty != ty:
                         val = None
+                    if val is None and r[3][0] == ("arg", 2) and cb is not top:
+                        continue        # a pass-through stage (`.and_then(|n| if .. { Ok(n) } ..)`): decides nothing by itself
                     if val is None:
                         other_accept.append(show(r))
                         continue
@@ -479,6 +481,27 @@ def r3_text(ck, F, tag, enc):
                                 good = oo[0] == "arg" and oo[1] == 1 and not oo[2]
                     if not good:
                         subj_bad.append("%s at %s" % (pth.rsplit("::", 1)[-1], where(t["sp"])))
+        # the numeric spellings are the single digits: usize::from_str alone also takes a sign and leading zeros ("+3", "003",
+        # "00"), so the numeric path must be conditioned on the input being one character long
+        if not delegated and got_digits:
+            one_char = False
+            for x in [top] + F.closures_of(top):
+                for p in PathEval(x).run():
+                    for c in p.conds:
+                        t = show(c[0])
+                        if ("len(" in t) and (t.startswith("eq(") or t.startswith("Eq(") or " Eq " in t or t.startswith("bin(")) and ("1" in t):
+                            one_char = True
+                        if c[0][0] == "bin" and c[0][1] == "Eq" and "len(" in t:
+                            one_char = True
+                    r_ = p.ret      # `.filter(|_| s.len() == 1)`: the closure *returns* the test
+                    if p.end == "return" and r_ and r_[0] == "bin" and r_[1] == "Eq" and "len(" in show(r_) and any(isinstance(a, tuple) and a[0] == "const" and a[2] == 1 for a in r_[2:4]):
+                        one_char = True
+            kd = "%s: a numeric spelling is exactly one digit" % short
+            if one_char:
+                ck.ok("C19.R3", kd, fn=top.path)
+            else:
+                ck.bad("C19.R3", kd, where(top.raw["sp"]), "the digits are recognised by parsing the whole input as usize with no length test: `+3`, `003` (and `00` for the filter) "
+                       "are accepted although only the digits themselves are documented", fn=top.path)
         k = "%s: every text test and number parse reads the input string itself" % short
         if subj_bad:
             ck.bad("C19.R3", k, where(top.raw["sp"]), "the subject of %s is derived from the input (trimmed / sliced / converted) rather than the input: "
